@@ -63,6 +63,12 @@ def h_gc(s0: bool, s1: bool, s2: bool, sd0: bool, sd1: bool, u0: bool, u1: bool,
             for j, t in enumerate(trees):
                 if dir_in_store[j]:
                     env.write(odb.oid_to_path(t.oid), t.as_bytes(), fs=odb.fs, mode=prot)
+            cache = None
+            if cube("cache", False):  # the listings are available from a separate cache store, whatever the collected store holds
+                cache = env.base_odb("listings")
+                for t in trees:
+                    env.write(cache.oid_to_path(t.oid), t.as_bytes(), fs=cache.fs)
+                cache_before = env.odb_objects(cache)
             before = env.odb_objects(odb)
             used = [HashInfo("md5", FO[i]) for i in range(NF) if used_f[i]]
             used += [trees[j].hash_info for j in range(ND) if used_d[j]]
@@ -75,7 +81,7 @@ def h_gc(s0: bool, s1: bool, s2: bool, sd0: bool, sd1: bool, u0: bool, u1: bool,
             if not SHALLOW:
                 for j in range(ND):
                     if used_d[j]:
-                        if dir_in_store[j]:
+                        if dir_in_store[j] or cache is not None:
                             keep |= {FO[i] for i in LISTING[j]}
                         else:
                             unloadable = True
@@ -83,7 +89,7 @@ def h_gc(s0: bool, s1: bool, s2: bool, sd0: bool, sd1: bool, u0: bool, u1: bool,
             expected_removed = set(before) - keep
         outcome, ret = "ok", None
         try:
-            ret = gc(odb, used, shallow=SHALLOW, dry=dry)
+            ret = gc(odb, used, shallow=SHALLOW, dry=dry, **({"cache_odb": cache} if cache is not None else {}))
         except ObjectDBPermissionError:
             outcome = "refused"
         except HarnessGap:
@@ -97,6 +103,8 @@ def h_gc(s0: bool, s1: bool, s2: bool, sd0: bool, sd1: bool, u0: bool, u1: bool,
             violation("gc-raised", f"{type(e).__name__}: {e}")
         with NoTracing():
             after = env.odb_objects(odb)
+            if cache is not None and env.odb_objects(cache) != cache_before:
+                violation("gc-modified-the-cache-store", None)
             if ro:
                 if outcome != "refused":
                     violation("read-only-store-not-refused", outcome)
